@@ -219,4 +219,30 @@ theorem linv_store (c : Ctx) (p : List UInt8) (cs : List Nat) (h : LInv c p cs) 
       simp only [List.length_append, List.length_singleton]
       rw [if_pos (by omega), hold 30 (by omega), getLast_snoc, h.hH, hs31.2]
 
+theorem feed_snoc (p : List UInt8) (c : UInt8) : Naive.feed (p ++ [c]) = (Naive.feed p).step c := by
+  unfold Naive.feed; rw [List.foldl_append]; rfl
+
+/-- **every level of the reference engine is described by the declarative cut positions** -/
+theorem linv_feed (p : List UInt8) : ∀ k, k ≤ 30 → LInv ((Naive.feed p).at k) p (cuts (rollVals p) k) := by
+  induction p using snoc_induction with
+  | hnil => intro k _; rw [show Naive.feed [] = Naive.new from rfl, at_new, cuts_nil]; exact linv_new
+  | hsnoc p c ih =>
+    intro k hk
+    have hN := ninv_feed p
+    have hv : ((Naive.feed p).roll.updateByByte c).value = rollSpec (p ++ [c]) := by
+      rw [hN.roll, ← Prim.roll_closed_form]
+      simp [Roll.update, List.foldl_append]
+    rw [feed_snoc, at_step _ c k (by rw [hN.lvSize]; omega), levelStep_eq, hv, cuts_snoc p c k hk]
+    have hu := linv_upd _ p _ c (ih k hk)
+    split
+    · next ht =>
+      have := linv_store _ _ _ hu
+      simpa using this
+    · next ht =>
+      rw [List.append_nil]
+      exact hu
+
+/-- level 31 never ends a piece -/
+theorem level31_virgin (p : List UInt8) : ((Naive.feed p).at 31).idx = 0 := (ninv_feed p).top
+
 end Ffuzzy.Decl
